@@ -112,6 +112,9 @@ Diff(e, s) ==
            [] e.f = "atan" -> Bin("div", da, Bin("add", CI(1), Pow(e.a, 2)))
            [] e.f = "sqrt" -> Bin("div", da, Bin("mul", CI(2), Fn("sqrt", e.a)))
            [] e.f = "log"  -> Bin("div", da, e.a)
+           [] e.f = "tan"  -> SMul(Bin("add", CI(1), Pow(Fn("tan", e.a), 2)), da)
+           [] e.f = "asin" -> Bin("div", da, Fn("sqrt", Bin("sub", CI(1), Pow(e.a, 2))))
+           [] e.f = "acos" -> SNeg(Bin("div", da, Fn("sqrt", Bin("sub", CI(1), Pow(e.a, 2)))))
 
 (***************************************************************************)
 (* Straight-line SSA programs (the result of common-subexpression          *)
